@@ -840,8 +840,8 @@ fn histories(rng: &mut Rng, thorough: bool) -> Vec<(String, &'static str)> {
         }
     }
     for f in likes { out.push((hdr("BLOB", rng.chance(1, 3), rng.chance(1, 4)) + &f, "pointer_like")); }
-    // ... but a re-executed prepared INSERT (insert_cached) still stores them inline: finding class 4 (size field small:
-    // error / empty blob / another row's bytes; huge: abort - run in a child process -, panic)
+    // ... and through a re-executed prepared INSERT: since cc39952 such parameters leave the cached plan to the ordinary
+    // path (the repaired class 4; before, insert_cached stored them inline: error / empty blob / another row's bytes / abort / panic)
     let mut fakes: Vec<String> = vec![
         format!("IS:1=B00 IS:2={} Q0 X Q0", ptr(0, 0x0101010101010101)),
         format!("IS:1=B00 IS:2={} Q1", ptr(5, 0x0101010101010101)),
@@ -995,7 +995,7 @@ fn gen(a: &Args) {
         if let Some(h) = parse_hist(&l) {
             let (jsonbs, terms, _) = observe(&h, "gen");
             if nontrivial(&h) { n_big += 1; }
-            if kind == "cached_pointer" { n_known += 1; }
+            let _ = &mut n_known;   // no finding class is left open
             if kind == "huge" && in_shard > 0 { w.flush(); in_shard = 0; }   // a shard of its own
             w.push(hist_term(&h, &jsonbs, &terms), show_hist(&h), nontrivial(&h), kind);
             // histories are the expensive cases for coqc: short shards, evaluated in parallel
@@ -1046,8 +1046,7 @@ fn search(a: &Args) {
             }
         }
         if !ok && fails.len() < 60 {
-            // class 4: a pointer-like value written by the session's prepared INSERT (re-executed: insert_cached)
-            let class = if h.ops.iter().any(|op| matches!(op, Op::Ins('S', _, v) if is_fake_ptr(v))) { 4 } else { 0 };
+            let class = 0;   // every recorded class has been repaired: a failing history is a new violation
             fails.push(format!("{} class={}", show_hist(&h), class));
         }
     }
